@@ -42,10 +42,10 @@ type Op struct {
 	OptLen int    `json:"opt,omitempty"` // option bytes of this fragment's header
 	Ts     int64  `json:"ts"`            // seconds
 	// hostile overrides
-	Off     *int `json:"off,omitempty"`     // byte offset (multiple of 8)
-	Size    *int `json:"size,omitempty"`    // payload bytes
-	Last    *bool `json:"last,omitempty"`   // MF clear
-	Corrupt bool `json:"corrupt,omitempty"` // content differs from the original at these offsets
+	Off     *int  `json:"off,omitempty"`     // byte offset (multiple of 8)
+	Size    *int  `json:"size,omitempty"`    // payload bytes
+	Last    *bool `json:"last,omitempty"`    // MF clear
+	Corrupt bool  `json:"corrupt,omitempty"` // content differs from the original at these offsets
 }
 
 type Case struct {
@@ -131,12 +131,12 @@ type recv struct {
 }
 
 type kstate struct {
-	got       map[int]bool // fragment indices received in this incarnation (benign)
-	lastAny   int64        // ts of last arrival incl. duplicates
-	lastNew   int64        // ts of last non-duplicate arrival
-	active    bool
-	unknown   bool // discard decision was ambiguous: stop predicting this incarnation
-	all       []recv
+	got     map[int]bool // fragment indices received in this incarnation (benign)
+	lastAny int64        // ts of last arrival incl. duplicates
+	lastNew int64        // ts of last non-duplicate arrival
+	active  bool
+	unknown bool // discard decision was ambiguous: stop predicting this incarnation
+	all     []recv
 }
 
 func runCase(c *Case) (f *vh.Failure) {
